@@ -109,6 +109,20 @@ def _(): rep('internal/context_v2/context.go','''func (ctx *CompilerContext) Has
 	defer ctx.mu.RUnlock()
 ''','''func (ctx *CompilerContext) HasModule(importPath string) bool {
 ''')
+
+@m('m15-6','C15')
+def _(): rep('internal/context_v2/context.go','''	ctx.sortedModules = sorted
+}''','''	for i, j := 0, len(sorted)-1; i < j; i, j = i+1, j-1 {
+		sorted[i], sorted[j] = sorted[j], sorted[i]
+	}
+	ctx.sortedModules = sorted
+}''')
+@m('m15-7','C15')
+def _(): rep('internal/context_v2/context.go','''	ctx.sortedModules = sorted
+}''','''	sort.Strings(sorted)
+	ctx.sortedModules = sorted
+}''')
+
 if __name__=='__main__':
     if sys.argv[1]=='list':
         for k,(c,_) in M.items(): print(k,c)
